@@ -15,6 +15,28 @@ ASSUMPTIONS = [
 ]
 
 PROPS = {
+    "C08": {
+        "rule": "tokens built by the harness's reference issuer (independent Rust code): _sd_alg cycling sha-256/384/512, disclosures in random order, odd JSON formatting of "
+                "disclosures (pretty-printed, padded with whitespace, spaced separators), salts of 0..64 bytes and non-string salts, decoys in _sd lists of any object and as "
+                "array placeholders (half of the cases), recursive disclosures; even cases: all disclosures through Holder::verify, Verifier::verify, Holder::presentation+build, "
+                "the extracted model and the independent verifier (three-way agreement with the original claims); odd cases: Holder::presentation -> redact -> build -> "
+                "Verifier::verify, and the built presentation judged by the independent verifier. non-trivial = non-default algorithm, decoys, odd formatting or nested marking; "
+                "distinct = distinct (kind,input)",
+        "explanation": "",
+        "trusted_base": ["premises hash_inj, dec_enc as in C03; RefVerify.v is the independent reference"],
+        "assumptions": [],
+    },
+    "C07": {
+        "rule": "(a) library-issued tokens (random claims and markings, decoys in a third, cnf in a sixth) decoded by the harness alone (own base64url decoder, sha2) and judged in "
+                "Coq: framing <JWT>~d~...~, each disclosure an array [salt,name,value]/[salt,value] with string salt, _sd_alg declared, each digest embedded exactly once in "
+                "payload plus disclosure values, no reserved claim name, and the independent top-down verifier (RefVerify.v) reconstructs the expected claims for every sub-list "
+                "of the disclosures (all 2^k for k<=6 quick / 8 thorough, 50 sampled above); (b) Disclosure::new(k,v).salt_len(0..64).algorithm(sha-256/384/512).build(): digest == "
+                "independent hash of the string, string decodes to [salt,k,v], salt length as requested, from_base64 round trip, reserved names refused. non-trivial = nested or "
+                "array-element markings and all build cases; distinct = distinct (kind,input)",
+        "explanation": "",
+        "trusted_base": ["RefVerify.v is the reference: a hand-written Gallina rendering of the specification's verification algorithm"],
+        "assumptions": [],
+    },
     "C15": {
         "rule": "YAML documents emitted by the harness from random (claims, marking): block style with every fifth container in flow style, JSON-quoted keys and scalars (null, booleans, "
                 "integers, floats, empty / non-ASCII / quoted strings), !sd on mapping keys at any depth (also inside sequences, below tagged keys, in single-entry mappings) and on "
